@@ -78,4 +78,6 @@ def _install_module(name, module):
     except ModuleNotFoundError:
         parent_module = types.ModuleType(parent_name)
         _install_module(parent_name, parent_module)
-        setattr(parent_module, child_name, module)
+
+    setattr(parent_module, child_name, module)
+    sys.modules[name] = module
